@@ -71,7 +71,7 @@ theorem SameRegion.trans {lo lo' n : Nat} {cl0 cl1 cl2 : Nat → Nat} (h1 : Same
     · obtain ⟨b, hb1, hb2, hb3⟩ := h2.reg a (by omega) han
       rw [hb3]; exact h1.reg b (by omega) hb2
 
-/-! ## the scan for the columns of minimal `d` (`:1461-1476`) -/
+/-! ## the scan for the columns of minimal `d` (`:1472-1487`) -/
 
 /-- the state of the scan before position `k` -/
 structure MinInv (n : Nat) (d : Nat → ℝ) (cl0 : Nat → Nat) (low k : Nat) (st : MinSc ℝ) : Prop where
@@ -167,7 +167,7 @@ theorem minScan_good (n : Nat) (d : Nat → ℝ) (cl0 : Nat → Nat) (low : Nat)
   rw [e] at this
   exact this
 
-/-! ## the check for an unassigned column among the minimal ones (`:1480-1488`) -/
+/-! ## the check for an unassigned column among the minimal ones (`:1491-1499`) -/
 
 def UnasgInv (n : Nat) (cs : Nat → Int) (cl : Nat → Nat) (low up k : Nat) (f : Option Nat) : Prop :=
   match f with
@@ -205,7 +205,7 @@ theorem unasg_good (n : Nat) (cs : Nat → Int) (cl : Nat → Nat) (low up : Nat
     rw [e]
     exact Good.ok (fun a h1 h2 => by omega)
 
-/-! ## the relaxation through a scanned row (`:1499-1524`) -/
+/-! ## the relaxation through a scanned row (`:1510-1535`) -/
 
 /-- the state of the relaxation through row `i` (reduced costs shifted by `h`) before position `k`;
 `d0`, `pred0`, `cl0`, `up0` are the values at the start of the loop -/
